@@ -898,8 +898,43 @@ def rule_pt1(ctx, rels, scope=None):
                 continue
             if scope is not None and f not in scope:
                 continue
-            S = {}
-            C = {}
+            # per subscripted array: the end-complement slices and the fixed
+            # indices applied to ITS last axis (two different arrays of one
+            # function say nothing about each other)
+            # a copy / view of an array has the same coordinate axis:
+            # `c = a[:]`, `c = np.array(a)`, `c = a.copy()` belong to a's group
+            group = {}
+
+            def root(nm):
+                seen_ = set()
+                while nm in group and nm not in seen_:
+                    seen_.add(nm)
+                    nm = group[nm]
+                return nm
+            for st in ast.walk(f.node):
+                if not (isinstance(st, ast.Assign) and len(st.targets) == 1
+                        and isinstance(st.targets[0], ast.Name)):
+                    continue
+                v = st.value
+                src = None
+                if isinstance(v, ast.Name):
+                    src = v.id
+                elif isinstance(v, ast.Subscript) and isinstance(
+                        v.value, ast.Name) and isinstance(v.slice, ast.Slice) \
+                        and v.slice.lower is None and v.slice.upper is None:
+                    src = v.value.id
+                elif isinstance(v, ast.Call) and dotted(v.func) in (
+                        "np.array", "np.copy", "np.asarray", "copy.copy",
+                        "copy.deepcopy") and v.args \
+                        and isinstance(v.args[0], ast.Name):
+                    src = v.args[0].id
+                elif isinstance(v, ast.Call) and isinstance(
+                        v.func, ast.Attribute) and v.func.attr == "copy" \
+                        and isinstance(v.func.value, ast.Name):
+                    src = v.func.value.id
+                if src is not None and src != st.targets[0].id:
+                    group[st.targets[0].id] = src
+            per = {}
             for n in ast.walk(f.node):
                 if not isinstance(n, ast.Subscript):
                     continue
@@ -908,6 +943,9 @@ def rule_pt1(ctx, rels, scope=None):
                         and isinstance(sl.elts[0], ast.Constant)
                         and sl.elts[0].value is Ellipsis):
                     continue
+                key = root(n.value.id) if isinstance(n.value, ast.Name) \
+                    else dotted(n.value)
+                S, C = per.setdefault(key, ({}, {}))
                 li = sl.elts[1]
                 if isinstance(li, ast.Slice):
                     S.setdefault(dotted(li), n)
@@ -915,32 +953,38 @@ def rule_pt1(ctx, rels, scope=None):
                     v = const_value(li)
                     if isinstance(v, int) and not isinstance(v, bool):
                         C.setdefault(v, n)
-            ends = set(S) & {"1:", ":-1"}
-            if not ends:
-                continue
-            n_f += 1
-            r.analysed(f)
-            allowed = set()
-            if ":-1" in ends:
-                allowed.add(-1)
-            if "1:" in ends:
-                allowed.add(0)
-            bad = sorted(set(C) - allowed)
-            inst = f"{f.qualname}:last-axis"
-            if not bad:
-                r.ok("PT1", inst, loc(f, f.node), "",
-                     f"slices {sorted(ends)} with indices {sorted(C)}")
-            else:
-                n = C[bad[0]]
-                r.violation(
-                    "PT1", f"{f.fq}|index:{bad[0]}", loc(f, n),
-                    norm_stmt(_stmt_of(f, n))[:140],
-                    f"the last axis is split with {sorted(ends)} but a "
-                    f"coordinate is addressed with the fixed index "
-                    f"{bad[0]}: that is the complementary coordinate only in "
-                    "one particular dimension (2), so in higher dimensions "
-                    "the wrong coordinate is read / written (and dimension 1 "
-                    "raises IndexError)", instance=inst)
+            judged = False
+            for base, (S, C) in sorted(per.items()):
+                ends = set(S) & {"1:", ":-1"}
+                if not ends:
+                    continue
+                if not judged:
+                    n_f += 1
+                    r.analysed(f)
+                    judged = True
+                allowed = set()
+                if ":-1" in ends:
+                    allowed.add(-1)
+                if "1:" in ends:
+                    allowed.add(0)
+                bad = sorted(set(C) - allowed)
+                inst = f"{f.qualname}:last-axis"
+                if not bad:
+                    r.ok("PT1", inst + f":{base[:30]}", loc(f, f.node), "",
+                         f"`{base[:40]}`: slices {sorted(ends)} with indices "
+                         f"{sorted(C)}")
+                else:
+                    n = C[bad[0]]
+                    r.violation(
+                        "PT1", f"{f.fq}|index:{bad[0]}", loc(f, n),
+                        norm_stmt(_stmt_of(f, n))[:140],
+                        f"the last axis of `{base[:40]}` is split with "
+                        f"{sorted(ends)} but a "
+                        f"coordinate is addressed with the fixed index "
+                        f"{bad[0]}: that is the complementary coordinate only in "
+                        "one particular dimension (2), so in higher dimensions "
+                        "the wrong coordinate is read / written (and dimension 1 "
+                        "raises IndexError)", instance=inst)
     if n_f == 0:
         r.note("PT1", ",".join(rels), "", "no end-complement slicing in scope")
 
